@@ -25,6 +25,7 @@ type Opts struct {
 	NoModCollide   bool // class field-number-mod-65536
 	NoFalseBoolKey bool // class bool-false-wantzero: no false bool map keys, no bools inside struct keys
 	NoImpl         bool // no implementers at all
+	ForceBigRep    bool // the first cheap repeated field of each value gets 1001..BigRepN elements
 
 	Excluded func(class string)
 
@@ -184,7 +185,8 @@ func (g *tgen) pointer(depth int) TypeDesc {
 			g.o.excluded(g.o.ClassPtrImpl)
 			return ptr(g.scalar())
 		}
-		return ptr(g.impl())
+		// never a pointer to a slice-kinded type (*RawMessage is outside the domain)
+		return ptr(named(oneOf(g.t, "pimpl", []string{"Msg", "Custom16", "CustomS"})))
 	}
 }
 
@@ -300,6 +302,33 @@ func (g *tgen) structType(depth int) TypeDesc {
 	if n > 0 && rapid.Bool().Draw(g.t, "tagged") {
 		g.tagFields(&d)
 	}
+	return d
+}
+
+// GenTypeBigSlice draws a struct type that has at least one repeated field of
+// cheap elements (scalars or strings) next to 0..4 arbitrary fields.
+func GenTypeBigSlice(t *rapid.T, o *Opts) TypeDesc {
+	g := &tgen{t: t, o: o}
+	n := rapid.IntRange(0, 4).Draw(t, "extra")
+	d := TypeDesc{K: KStruct}
+	pos := rapid.IntRange(0, n).Draw(t, "pos")
+	for i := 0; i <= n; i++ {
+		var ft TypeDesc
+		if i == pos {
+			if Uniform(t, "bigelem", 4) == 0 {
+				ft = sl(leaf(KString))
+			} else {
+				ft = sl(g.scalar())
+			}
+		} else {
+			ft = g.fieldType(2)
+		}
+		d.Fields = append(d.Fields, FieldDesc{Num: i + 1, T: ft})
+	}
+	if rapid.Bool().Draw(t, "tagged") {
+		g.tagFields(&d)
+	}
+	g.restrictImpl(&d)
 	return d
 }
 
@@ -492,7 +521,7 @@ func (g *tgen) restrictImpl(top *TypeDesc) {
 	}
 	for i := range top.Fields {
 		f := &top.Fields[i]
-		if i == len(top.Fields)-1 && !hasRep && f.T.K == KNamed && f.T.Impl() != "" {
+		if i == len(top.Fields)-1 && !hasRep && (f.T.K == KNamed && f.T.Impl() != "" || f.T.K == KPtr && f.T.Elem.Impl() != "") {
 			continue
 		}
 		strip(&f.T)
@@ -592,8 +621,9 @@ func GenValue(t *rapid.T, d *TypeDesc, o *Opts) Recipe {
 }
 
 type vgen struct {
-	t *rapid.T
-	o *Opts
+	t       *rapid.T
+	o       *Opts
+	bigDone bool
 }
 
 func (g *vgen) repLen(cheap bool) (n int, isNil bool) {
@@ -601,7 +631,15 @@ func (g *vgen) repLen(cheap bool) (n int, isNil bool) {
 	if max == 0 {
 		max = 40
 	}
-	switch pick(g.t, "replen", 10, 5, 45, 15, 20, 5) {
+	if g.o.ForceBigRep && cheap && !g.bigDone && g.o.MaxRep == 0 {
+		g.bigDone = true
+		bn := g.o.BigRepN
+		if bn == 0 {
+			bn = 5000
+		}
+		return rapid.IntRange(1001, bn).Draw(g.t, "bign"), false
+	}
+	switch pick(g.t, "replen", 10, 5, 38, 15, 20, 12) {
 	case 0:
 		return 0, true
 	case 1:
